@@ -182,7 +182,7 @@ def check(case):
                 res.bad("C13:order-dependent", f"CYS {k}: {obs[k]} in file order, {obs2[k]} with chains reversed")
     else:
         res.bad("C13:order-dependent:run", f"reversed chain order fails: {r2.exc_text[:100]}")
-    res.nontrivial = near or bonded_pair
+    res.nontrivial = near or bonded_pair or bool(case.get("net"))  # (network table: a free SG accepting 2-3 hydrogen bonds)
     res.label("bonded-pair" if bonded_pair else "no-bond")
     return res
 
@@ -213,6 +213,7 @@ def grid_cases(tier="quick"):
 
 def parts(tier):
     return [
+        Part("nettable", check, cases=lambda: e2e.network_cases("nettable", tier, only="cys"), exhaustive=True),
         Part("grid", check, cases=lambda: grid_cases(tier), exhaustive=True),
         Part("ss", check, strategy=case(), budget=dict(quick=400, thorough=8000)),
     ]
